@@ -23,17 +23,21 @@ impl C07 {
         let mut actual: BTreeMap<(String, u64), (u128, u128)> = BTreeMap::new();
         for (u, reqs) in c.post.requests.iter() {
             for (b, x, y) in reqs {
-                actual.insert((u.clone(), *b), (*x, *y));
-            }
-        }
-        if actual != self.ledger {
-            let mut diffs = vec![];
-            for (k, v) in actual.iter() {
-                if self.ledger.get(k) != Some(v) {
-                    diffs.push(format!("{:?}: contract {:?}, expected {:?}", k, v, self.ledger.get(k)));
+                // rows worth nothing are not claims (a hub may or may not keep them)
+                if (*x, *y) != (0, 0) {
+                    actual.insert((u.clone(), *b), (*x, *y));
                 }
             }
-            for (k, v) in self.ledger.iter() {
+        }
+        let ledger: BTreeMap<(String, u64), (u128, u128)> = self.ledger.iter().filter(|(_, v)| **v != (0, 0)).map(|(k, v)| (k.clone(), *v)).collect();
+        if actual != ledger {
+            let mut diffs = vec![];
+            for (k, v) in actual.iter() {
+                if ledger.get(k) != Some(v) {
+                    diffs.push(format!("{:?}: contract {:?}, expected {:?}", k, v, ledger.get(k)));
+                }
+            }
+            for (k, v) in ledger.iter() {
                 if !actual.contains_key(k) {
                     diffs.push(format!("{:?}: contract has nothing, expected {:?}", k, v));
                 }
@@ -70,14 +74,19 @@ impl C07 {
             for (s, l, got) in c.post.history_probes.iter() {
                 out.count("c07.history_pages_probed");
                 let mut bad: Option<String> = None;
-                for (i, g) in got.iter().enumerate() {
+                // a page may list its entries oldest-first or newest-first: it is judged in ascending order of ids, and
+                // the start rule is applied in the direction the page runs
+                let descending = got.len() >= 2 && got[0].batch_id > got[1].batch_id;
+                let mut page: Vec<&crate::snap::Hist> = got.iter().collect();
+                page.sort_by_key(|g| g.batch_id);
+                for (i, g) in page.iter().enumerate() {
                     match reference.iter().position(|r| r.batch_id == g.batch_id) {
                         None => bad = Some(format!("returns batch {} which is not stored", g.batch_id)),
                         Some(p) => {
-                            if &reference[p] != g {
+                            if &&reference[p] != g {
                                 bad = Some(format!("batch {} differs from the stored entry", g.batch_id));
                             }
-                            if i + 1 < got.len() && reference.get(p + 1).map(|r| r.batch_id) != Some(got[i + 1].batch_id) {
+                            if i + 1 < page.len() && reference.get(p + 1).map(|r| r.batch_id) != Some(page[i + 1].batch_id) {
                                 bad = Some(format!("batch {} is not followed by the next stored batch", g.batch_id));
                             }
                         }
@@ -89,17 +98,21 @@ impl C07 {
                     }
                 }
                 let from = s.unwrap_or(0);
-                let next_after = reference.iter().map(|r| r.batch_id).filter(|b| *b > from || (s.is_none())).min();
-                match got.first() {
-                    None => {
-                        if let Some(nb) = next_after {
-                            bad = Some(format!("empty page although batch {} is stored after the requested start", nb));
+                let next_up = reference.iter().map(|r| r.batch_id).filter(|b| *b > from || s.is_none()).min();
+                let next_down = reference.iter().map(|r| r.batch_id).filter(|b| *b < from || s.is_none()).max();
+                match (page.first(), page.last()) {
+                    (Some(lo), Some(hi)) => {
+                        let ok_up = Some(lo.batch_id) == next_up || (s.is_some() && lo.batch_id == from);
+                        let ok_down = Some(hi.batch_id) == next_down || (s.is_some() && hi.batch_id == from);
+                        let ok = if descending { ok_down } else if page.len() == 1 { ok_up || ok_down } else { ok_up };
+                        if !ok {
+                            bad = Some(format!("page {:?} does not start at the stored batch next to the requested start", page.iter().map(|g| g.batch_id).collect::<Vec<_>>()));
                         }
                     }
-                    Some(g) => {
-                        let ok_first = Some(g.batch_id) == next_after || (s.is_some() && g.batch_id == from);
-                        if !ok_first {
-                            bad = Some(format!("page starts at batch {} but the first stored batch after the requested start is {:?}", g.batch_id, next_after));
+                    _ => {
+                        // empty: fine when, in one of the two directions, nothing is stored beyond the requested start
+                        if next_up.is_some() && next_down.is_some() {
+                            bad = Some(format!("empty page although batches are stored on both sides of the requested start ({:?} / {:?})", next_down, next_up));
                         }
                     }
                 }
@@ -113,6 +126,11 @@ impl C07 {
         match &c.post.raw_requests {
             Some(raw) if !(raw.is_empty() && !q.is_empty()) => {
                 out.count("c07.requests_checked_against_storage");
+                // markers worth nothing (a paid claim kept as a tombstone, say) are not claims
+                let strip = |m: &BTreeMap<String, Vec<(u64, u128, u128)>>| -> BTreeMap<String, Vec<(u64, u128, u128)>> {
+                    m.iter().map(|(k, v)| (k.clone(), v.iter().filter(|x| (x.1, x.2) != (0, 0)).cloned().collect::<Vec<_>>())).filter(|(_, v)| !v.is_empty()).collect()
+                };
+                let (q, raw) = (strip(&q), &strip(raw));
                 if &q != raw {
                     out.violation(P, "queries_faithful", format!("UnbondRequests answers {:?} differ from the stored wait list {:?}", q, raw));
                     return;
@@ -171,11 +189,15 @@ impl Monitor for C07 {
                     if hb0 - hb1 != *amount {
                         out.violation(P, "burns_exactly", format!("unbond of {}: {}'s balance fell by {}", amount, holder, hb0 - hb1));
                     }
-                    let get = |s: &crate::snap::Snap, u: &str| -> (u128, u128) {
-                        s.requests.get(u).and_then(|r| r.iter().find(|x| x.0 == pre.batch_id).map(|x| (x.1, x.2))).unwrap_or((0, 0))
+                    // "a claim in the current batch": the batch that was open before the transaction or - when the hub
+                    // closes an overdue batch first and files the request in the next one - the batch open after it
+                    let get_in = |s: &crate::snap::Snap, u: &str, batch: u64| -> (u128, u128) {
+                        s.requests.get(u).and_then(|r| r.iter().find(|x| x.0 == batch).map(|x| (x.1, x.2))).unwrap_or((0, 0))
                     };
-                    let (b0, s0) = get(pre, user);
-                    let (b1, s1) = get(post, user);
+                    let moved_on = post.batch_id != pre.batch_id && get_in(pre, user, pre.batch_id) == get_in(post, user, pre.batch_id) && get_in(post, user, post.batch_id) != (0, 0);
+                    let claim_batch = if moved_on { post.batch_id } else { pre.batch_id };
+                    let (b0, s0) = get_in(pre, user, claim_batch);
+                    let (b1, s1) = get_in(post, user, claim_batch);
                     let credited = match tok {
                         Tok::B => {
                             if s1 != s0 {
@@ -194,10 +216,13 @@ impl Monitor for C07 {
                     if credited > *amount || credited + cap < *amount {
                         out.violation(P, "credits_sender", format!("unbond of {} {:?} by {} credited a claim of {} (fee cap {})", amount, tok, user, credited, cap));
                     }
-                    let e = self.ledger.entry((user.clone(), pre.batch_id)).or_insert((0, 0));
-                    match tok {
-                        Tok::B => e.0 += credited,
-                        Tok::St => e.1 += credited,
+                    // (a request the peg fee consumes entirely leaves no claim: no ledger row either)
+                    if credited > 0 {
+                        let e = self.ledger.entry((user.clone(), claim_batch)).or_insert((0, 0));
+                        match tok {
+                            Tok::B => e.0 += credited,
+                            Tok::St => e.1 += credited,
+                        }
                     }
                     if pre.batch_id != post.batch_id {
                         out.count("c07.unbonds_closing_a_batch");
@@ -220,13 +245,24 @@ impl Monitor for C07 {
                     out.count("c07.withdrawals");
                 }
                 Op::Raw { contract, msg, .. } if contract == HUB && msg.starts_with("{\"receive\"") => {
-                    out.violation(P, "only_registered_tokens", format!("a Receive hook not coming from a registered token was accepted: {}", msg));
+                    // "claims are created only through the two registered token contracts": a forged hook must create
+                    // nothing; whether it is rejected or acknowledged and ignored is C10's sentence
+                    if crate::snap::sem_digest(c.w_pre) != crate::snap::sem_digest(c.w_post) {
+                        out.violation(P, "only_registered_tokens", format!("a Receive hook not coming from a registered token was accepted and changed the state: {}", msg));
+                    } else {
+                        out.count("c07.forged_receive_ignored");
+                    }
                 }
                 _ => {}
             }
         } else if let Op::Raw { contract, msg, .. } = c.op {
             if contract == HUB && msg.starts_with("{\"receive\"") {
                 out.count("c07.forged_receive_rejected");
+            }
+        }
+        if let Op::Raw { contract, msg, .. } = c.op {
+            if contract == HUB && msg.starts_with("{\"receive\"") {
+                out.count("c07.forged_receive_attempts");
             }
         }
         self.compare(c, out);
